@@ -3,6 +3,7 @@ package rules
 import (
 	"fmt"
 	"go/constant"
+	"go/token"
 	"go/types"
 	"strings"
 
@@ -20,7 +21,7 @@ func init() {
 			{"C18/unknown-accepted", ruleC18UnknownAccepted},
 			{"C18/name-set-exact", func(c *Ctx) { ruleNameSetExact(c, "C18/name-set-exact") }},
 		},
-		Explanation: "Decides non-interference as a read effect: no function reachable from Validate reads a Schema field classified non-asserting (title, description, $comment, default, examples, deprecated, readOnly, writeOnly, format, content*), container ($defs, definitions) or meta (Extra, PropertyOrder), neither directly nor through reflection; the resolution pipeline reads of those fields are limited to a frozen, reasoned set (default validation, traversal); the keyword decoder never hands the caller's document bytes directly to a case-insensitive struct decode but re-encodes a map filtered by exact membership in the JSON-name set; unknown keywords cannot be rejected (Extra is map[string]any filled from a generic decode; no DisallowUnknownFields). It does NOT observe verdict equality of decorated and undecorated schemas, and cannot tell whether the exact-key filter is itself right.",
+		Explanation: "Decides non-interference as a read effect: no function reachable from Validate reads a Schema field classified non-asserting (title, description, $comment, default, examples, deprecated, readOnly, writeOnly, format, content*), container ($defs, definitions) or meta (Extra, PropertyOrder), neither directly nor through reflection; the resolution pipeline reads of those fields are limited to a frozen, reasoned set (default validation, traversal); the keyword decoder never hands the caller's document bytes directly to a case-insensitive struct decode but re-encodes a map filtered by exact membership in the JSON-name set; unknown keywords cannot be rejected (Extra is map[string]any filled from a generic decode; no DisallowUnknownFields). every JSON value is accepted as the value of an unknown keyword, of default and of examples (a generic decode that fails on a number outside the float64 range is retried with UseNumber; no non-asserting keyword is decoded into a float64-bearing type). It does NOT observe verdict equality of decorated and undecorated schemas, and cannot tell whether the exact-key filter is itself right.",
 		NotDecided:  []string{"verdict equality of a decorated and an undecorated schema as an observed fact", "correctness of the exact-key filter beyond its presence and its dependence on the JSON-name set"},
 	})
 }
@@ -519,4 +520,165 @@ func ruleC18UnknownAccepted(c *Ctx) {
 func isEmptyInterface(t types.Type) bool {
 	i, ok := t.Underlying().(*types.Interface)
 	return ok && i.NumMethods() == 0
+}
+
+func init() {
+	p := Properties["C18"]
+	p.Rules = append(p.Rules, Rule{"C18/any-json-value-accepted", ruleC18AnyValue})
+}
+
+// decodesNumbersToFloat: encoding/json decodes a JSON number found at (or below) a target of this type into a
+// float64 held in an empty interface, which fails for a number outside the float64 range (1e999). Types with
+// their own UnmarshalJSON (Schema, json.RawMessage, ...) decide for themselves and are not looked into.
+func decodesNumbersToFloat(t types.Type, seen map[types.Type]bool) bool {
+	if seen[t] {
+		return false
+	}
+	seen[t] = true
+	if n, ok := types.Unalias(t).(*types.Named); ok {
+		for _, recv := range []types.Type{n, types.NewPointer(n)} {
+			ms := types.NewMethodSet(recv)
+			for i := 0; i < ms.Len(); i++ {
+				if nm := ms.At(i).Obj().Name(); nm == "UnmarshalJSON" || nm == "UnmarshalText" {
+					return false
+				}
+			}
+		}
+	}
+	switch u := t.Underlying().(type) {
+	case *types.Interface:
+		return u.NumMethods() == 0
+	case *types.Pointer:
+		return decodesNumbersToFloat(u.Elem(), seen)
+	case *types.Slice:
+		return decodesNumbersToFloat(u.Elem(), seen)
+	case *types.Array:
+		return decodesNumbersToFloat(u.Elem(), seen)
+	case *types.Map:
+		return decodesNumbersToFloat(u.Elem(), seen)
+	}
+	return false
+}
+
+// Every JSON value is a legal value of an unknown keyword, and of the non-asserting keywords whose value is not
+// constrained (default, examples). A value may contain a number that float64 cannot hold; decoding such a value
+// into `any` fails, and with it Unmarshal of the whole document.
+//   - the splice helper's generic decodes (json.Unmarshal into any / map[string]any) must not hand that failure
+//     to the caller: the failing branch retries with a decoder that keeps numbers as text (UseNumber);
+//   - the Schema fields of non-asserting keywords must not be of a type that decodes numbers to float64.
+func ruleC18AnyValue(c *Ctx) {
+	const rule = "C18/any-json-value-accepted"
+	_, _, _, uh := c.wrapperTypes(rule)
+	if uh == nil {
+		return
+	}
+	n := 0
+	for _, fn := range c.familyFuncs(uh) {
+		useNumber := map[*ssa.BasicBlock]bool{}
+		core.EachInstr(fn, func(i ssa.Instruction) {
+			if call, ok := i.(ssa.CallInstruction); ok && core.CalleeKey(call.Common()) == "encoding/json.Decoder.UseNumber" {
+				useNumber[i.Block()] = true
+			}
+		})
+		core.EachInstr(fn, func(i ssa.Instruction) {
+			call, ok := i.(*ssa.Call)
+			if !ok || core.CalleeKey(&call.Call) != "encoding/json.Unmarshal" || len(call.Call.Args) != 2 {
+				return
+			}
+			target := peelIface(call.Call.Args[1])
+			pt, ok := target.Type().Underlying().(*types.Pointer)
+			if !ok || !decodesNumbersToFloat(pt.Elem(), map[types.Type]bool{}) {
+				return
+			}
+			n++
+			// the branch on which the error is non-nil must pass a UseNumber retry before any return
+			okRetry, found := true, false
+			for _, r := range *call.Referrers() {
+				bo, isBin := r.(*ssa.BinOp)
+				if !isBin || !isErrNilTest(bo) {
+					continue
+				}
+				for _, rr := range *bo.Referrers() {
+					ifi, isIf := rr.(*ssa.If)
+					if !isIf {
+						continue
+					}
+					found = true
+					failing := ifi.Block().Succs[0]
+					if bo.Op == token.EQL {
+						failing = ifi.Block().Succs[1]
+					}
+					rets := map[*ssa.BasicBlock]bool{}
+					for _, b := range fn.Blocks {
+						if len(b.Instrs) > 0 {
+							if _, isRet := b.Instrs[len(b.Instrs)-1].(*ssa.Return); isRet && !useNumber[b] {
+								rets[b] = true
+							}
+						}
+					}
+					if !mustPass(failing, useNumber, rets) {
+						okRetry = false
+					}
+				}
+			}
+			name := core.FuncName(fn)
+			if o := fn.Origin(); o != nil {
+				name = core.FuncName(o)
+			}
+			c.R.Check(found && okRetry, rule, name+":generic-decode:"+shortTypeName(pt.Elem()), c.pos(call),
+				"a failing generic decode (a number float64 cannot hold) is retried with UseNumber before the error can reach the caller",
+				"the value is decoded into `any` and the error is handed to the caller: a number outside the float64 range anywhere in the value of an unknown keyword (or, when the whole document is decoded, of any keyword, e.g. {\"default\":1e999}) makes Unmarshal reject the document, although every JSON value is a legal value there")
+		})
+	}
+	c.R.Floor(rule, "generic decodes in the unmarshal splice helper", n, 1)
+	// the non-asserting keywords: what the decoder really decodes them into is the depth-0 field of the
+	// wrapper struct (a shadow field wins over the embedded Schema field)
+	_, ut, _, _ := c.wrapperTypes(rule)
+	uf := jsonFieldsOf(ut)
+	unm := c.fn("(*Schema).UnmarshalJSON")
+	inSplice := map[*ssa.Function]bool{}
+	for _, fn := range c.familyFuncs(uh) {
+		inSplice[fn] = true
+	}
+	for _, f := range c.SchemaFields(rule) {
+		if f.Class != "non-asserting" || f.JSONName == "" {
+			continue
+		}
+		jf, ok := uf[f.JSONName]
+		if !ok {
+			continue
+		}
+		c.R.Check(!decodesNumbersToFloat(jf.Type, map[types.Type]bool{}), rule, "field:"+f.Name, c.P.Pos(f.Var.Pos()),
+			"the keyword is decoded into a type that accepts every JSON value of its shape",
+			fmt.Sprintf("\"%s\" is decoded by encoding/json into %s, i.e. numbers become float64 values held in `any`: a document whose %s contains a number outside the float64 range (1e999) is rejected by Unmarshal, although the keyword is documented as non-asserting and the value is well-typed", f.JSONName, jf.Type.String(), f.JSONName))
+		if unm == nil || types.Identical(jf.Type, f.Var.Type()) {
+			continue
+		}
+		// a shadow field: where its raw value is decoded generically, the same retry is needed
+		goName := jf.GoPath[len(jf.GoPath)-1]
+		for _, fn := range c.familyFuncs(unm) {
+			if inSplice[fn] {
+				continue
+			}
+			core.EachInstr(fn, func(i ssa.Instruction) {
+				call, ok := i.(*ssa.Call)
+				if !ok || core.CalleeKey(&call.Call) != "encoding/json.Unmarshal" || len(call.Call.Args) != 2 {
+					return
+				}
+				pt, ok := peelIface(call.Call.Args[1]).Type().Underlying().(*types.Pointer)
+				if !ok || !decodesNumbersToFloat(pt.Elem(), map[types.Type]bool{}) {
+					return
+				}
+				fromShadow := false
+				for _, src := range append(traceSourcesDeep(call.Call.Args[0]), call.Call.Args[0]) {
+					if c.mentionsNamedField(src, goName, 5) {
+						fromShadow = true
+					}
+				}
+				if fromShadow {
+					c.R.Bad(rule, "shadow:"+f.Name+":generic-decode", c.pos(call), fmt.Sprintf("the raw value of \"%s\" is decoded into `any` outside the retrying helper: a number outside the float64 range makes Unmarshal reject the document", f.JSONName))
+				}
+			})
+		}
+	}
 }
